@@ -55,12 +55,12 @@ theorem drawIndex_interval_small (m : Mix R Ob) (hm : W m) (h9 : m.comps.length 
   rfl
 
 -- @site Mixture::draw
-/-- more than 9 components (bisection): the variates `u > 0` selecting component `i` are exactly
-    `(W_i/S, W_{i+1}/S]` — the same length, the other end point -/
+/-- more than 9 components (bisection): the SAME interval `[W_i/S, W_{i+1}/S)`, `u = 0` included (after the repair of
+    `binary_search`, C13) -/
 theorem drawIndex_interval_large (m : Mix R Ob) (hm : W m) (h9 : 9 < m.comps.length)
-    (hf : C13.FuelOK m.comps.length) (u : R) (hu : 0 < u.val) (i : Nat) :
+    (hf : C13.FuelOK m.comps.length) (u : R) (hu : 0 ≤ u.val) (i : Nat) :
     drawIndex m u = some i ↔
-      i < m.comps.length ∧ C13.W m.weights i / total m < u.val ∧ u.val ≤ C13.W m.weights (i + 1) / total m := by
+      i < m.comps.length ∧ C13.W m.weights i / total m ≤ u.val ∧ u.val < C13.W m.weights (i + 1) / total m := by
   have hl := hm.2.2.1
   rw [drawIndex_eq_pflips1,
     C13.pflips_interval_large m.weights hm.1 (total_pos m hm) (by omega) (by rwa [hl]) u hu i, hl]
@@ -106,13 +106,21 @@ theorem drawIndex_total (m : Mix R Ob) (hm : W m) (hf : C13.FuelOK m.comps.lengt
   exact ⟨i, h1, by rwa [← hl]⟩
 
 -- @site Mixture::draw
-/-- a component of weight zero is never drawn — for `u > 0`, or for `u ≥ 0` with at most 9 components -/
+/-- a component of weight zero is never drawn — for every variate `u ≥ 0`, any number of components -/
 theorem drawIndex_positive_weight (m : Mix R Ob) (hm : W m) (hf : C13.FuelOK m.comps.length) (u : R)
-    (hu : 0 < u.val ∨ (0 ≤ u.val ∧ m.comps.length ≤ 9)) (i : Nat) (h : drawIndex m u = some i) :
+    (hu : 0 ≤ u.val) (i : Nat) (h : drawIndex m u = some i) :
     0 < (idxR m.weights i).val := by
   have hl := hm.2.2.1
-  exact C13.pflips_positive_weight m.weights hm.1 (total_pos m hm) (by rwa [hl]) u
-    (by rcases hu with h | ⟨h1, h2⟩; exact Or.inl h; exact Or.inr ⟨h1, by omega⟩) i h
+  exact C13.pflips_positive_weight m.weights hm.1 (total_pos m hm) (by rwa [hl]) u hu i h
+
+-- @site Mixture::draw
+/-- headline: for EVERY 64-bit generator word a valid mixture draws a valid component index of positive weight -/
+theorem drawIndex_every_word (m : Mix R Ob) (hm : W m) (hf : C13.FuelOK m.comps.length) (w : Nat)
+    (hw : w < 2 ^ 64) :
+    ∃ i, drawIndex m (uniform01 w) = some i ∧ i < m.comps.length ∧ 0 < (idxR m.weights i).val := by
+  have hl := hm.2.2.1
+  obtain ⟨i, h1, h2, h3⟩ := C13.pflips_every_word m.weights hm.1 (total_pos m hm) (by rwa [hl]) w hw
+  exact ⟨i, by rw [drawIndex_eq_pflips1, uniform01_eq]; exact h1, by rwa [← hl], h3⟩
 
 /-- ten components, the first with weight zero, the others `1/9` -/
 noncomputable def tenMix : Mix R Unit :=
@@ -128,21 +136,19 @@ theorem tenMix_W : W tenMix := by
     norm_num
 
 -- @site Mixture::draw
-/-- DEFECT (inherited from `pflips`, C13).  `Uniform::new(0.0, 1.0)` delivers `0` for every generator word below
-    `2¹²`; with more than 9 components the bisection then answers index `0` whatever its weight: a VALID mixture
-    (invariant `W`) draws from a component of weight zero. -/
-theorem drawIndex_zero_weight_counterexample :
-    W tenMix ∧ drawIndex tenMix (uniform01 0) = some 0 ∧ (idxR tenMix.weights 0).val = 0 := by
-  refine ⟨tenMix_W, ?_, by simp [tenMix, idxR]⟩
-  have hne : tenMix.weights ≠ [] := by simp [tenMix]
-  obtain ⟨r, hr, e⟩ := C13.pflips1_eq tenMix.weights (uniform01 0) hne
-  rw [uniform01_eq, C13.uniform01_zero, zero_mul] at hr
-  rw [drawIndex_eq_pflips1, e]
-  unfold Gen.catflip
-  have : decide ((Gen.cumsum tenMix.weights).length > 9) = true := by
-    rw [C13.cumsum_length']; simp [tenMix]
-  rw [if_pos this, C13.bisection_cumsum_zero tenMix.weights tenMix_W.1
-    (C13.length_lt_fuel _ (by simp [tenMix])) hne r hr]
+/-- the former defect witness (`Uniform::new(0.0, 1.0)` delivers `0` for the generator word `0`; more than 9 components,
+    the first of weight zero): the draw is now component `1`, of positive weight (was component `0` before the repair of
+    `binary_search`, C13) -/
+theorem drawIndex_leading_zero_weight :
+    W tenMix ∧ drawIndex tenMix (uniform01 0) = some 1 ∧ 0 < (idxR tenMix.weights 1).val := by
+  refine ⟨tenMix_W, ?_, by norm_num [tenMix, idxR, List.replicate]⟩
+  rw [drawIndex_interval_large tenMix tenMix_W (by simp [tenMix]) (C13.fuelOK_of_le (by simp [tenMix])) _
+    (by rw [uniform01_eq, C13.uniform01_zero]), uniform01_eq, C13.uniform01_zero]
+  norm_num [tenMix, C13.W, total, List.replicate]
+
+example : ∃ i, drawIndex tenMix (uniform01 0) = some i ∧ i < 10 ∧ 0 < (idxR tenMix.weights i).val := by
+  have := drawIndex_every_word tenMix tenMix_W (C13.fuelOK_of_le (by simp [tenMix])) 0 (by norm_num)
+  simpa [tenMix] using this
 
 example : ∃ i, drawIndex exMix ⟨0.7⟩ = some i ∧ i < 2 :=
   drawIndex_total exMix exMix_W (C13.fuelOK_of_le (by simp [exMix])) ⟨0.7⟩ (by norm_num) (by norm_num)
@@ -157,7 +163,7 @@ example : drawIndex tenMix ⟨0.5⟩ = some 5 := by
   norm_num [tenMix, C13.W, total, List.replicate]
 
 example : 0 < (idxR exMix.weights 1).val :=
-  drawIndex_positive_weight exMix exMix_W (C13.fuelOK_of_le (by simp [exMix])) ⟨0.7⟩ (Or.inl (by norm_num)) 1
+  drawIndex_positive_weight exMix exMix_W (C13.fuelOK_of_le (by simp [exMix])) ⟨0.7⟩ (by norm_num) 1
     (by rw [drawIndex_interval_small exMix exMix_W (by simp [exMix]) _ (by norm_num)]
         norm_num [exMix, C13.W, total])
 
@@ -176,4 +182,5 @@ end C11
 #print axioms C11.drawIndex_total
 #print axioms C11.drawIndex_positive_weight
 #print axioms C11.tenMix_W
-#print axioms C11.drawIndex_zero_weight_counterexample
+#print axioms C11.drawIndex_every_word
+#print axioms C11.drawIndex_leading_zero_weight
